@@ -31,13 +31,18 @@ def tree_case(draw):
     jorder = draw(st.permutations(JDIRS))
     nj = draw(st.integers(0, 3))
     js = list(jorder[:nj])
+    # a directory may be named more than once (scripts append their own -J to the caller's): the right-most mention decides
+    for _ in range(draw(st.sampled_from([0, 0, 1, 2]))):
+        if js:
+            js.insert(draw(st.integers(0, len(js))), draw(st.sampled_from(js)))
     present = draw(st.lists(st.sampled_from(PLACES), min_size=0, max_size=4, unique=True))
     imports = draw(st.lists(st.tuples(st.sampled_from(SPELLINGS), st.sampled_from(PLACES)), min_size=1, max_size=4))
     mid_in = draw(st.sampled_from([None, "j0", "j1", "app", "j2"]))
     amid_in = draw(st.sampled_from([None, None, "j0", "j1", "j2"]))
     data = draw(st.binary(max_size=24))
     return {"js": js, "present": present, "imports": [list(i) for i in imports], "mid_in": mid_in, "amid_in": amid_in, "data": data.hex(),
-            "kind": draw(st.sampled_from(["import", "import", "importstr", "importbin"])), "fault": draw(st.sampled_from([None, None, None, "dangling", "dir-first", "cycle"]))}
+            "kind": draw(st.sampled_from(["import", "import", "importstr", "importbin"])), "fault": draw(st.sampled_from([None, None, None, "dangling", "dir-first", "dir-first", "cycle"])),
+            "dir_at": draw(st.sampled_from(PLACES))}
 
 
 def lib_source(ident):
@@ -70,12 +75,13 @@ def check_tree(case):
             else:
                 open(p, "wb").write(place.encode() + b":" + data)
         if fault == "dir-first":
-            # a directory with the file's name sits in the importer's directory
+            # a directory with the file's name sits in the importer's directory (or in one of the other places)
+            dir_at = case.get("dir_at", "app")
             try:
-                os.remove(os.path.join(root, "app", name))
+                os.remove(os.path.join(root, dir_at, name))
             except FileNotFoundError:
                 pass
-            os.mkdir(os.path.join(root, "app", name))
+            os.mkdir(os.path.join(root, dir_at, name))
         if fault == "dangling":
             os.symlink("nowhere", os.path.join(root, "app", "dangling.libsonnet"))
         # symlinks: links/file -> the app copy (if any) or first present copy; links/dir -> that directory
@@ -164,9 +170,12 @@ def check_tree(case):
         nt = len(present) >= 2 or fault is not None or len(set(expected)) >= 2
         if should_fail:
             if is_dir and not any_missing and fault not in ("dangling", "cycle"):
-                # a directory where a file is expected: failing is the documented outcome; never a crash (checked above)
-                if rc not in (0, 1):
-                    raise Violation("import-dir-exit", f"exit {rc}: {what}")
+                # the first location where the name exists decides; a directory there is an unreadable file: an error
+                # at the import site, not a silent fall-through to a lower-priority location
+                if rc != 1:
+                    raise Violation("import-dir-exit", f"a directory is the first match of an import, expected exit 1, got {rc}: {what}")
+                if not re.search(r"--> .*(main\.jsonnet|mid\.libsonnet):\d+:\d+", failure_report):
+                    raise Violation("import-failure-location", f"the failure is not located at an import site: {errt[:400]!r} for {what}")
                 return {"nontrivial": True, "labels": ["dir-in-place-of-file", f"rc={rc}"]}
             if rc != 1:
                 raise Violation("import-failure-exit", f"expected exit 1 (missing file / dangling link / cycle), got {rc}: {what}")
